@@ -217,4 +217,100 @@ def exec (e : Env) : St → List Stmt → Out
 def run (body : List Stmt) (e : Env) (xs ys : List Nat) : Out :=
   exec e ⟨⟨xs, .live⟩, ⟨ys, .live⟩, none, []⟩ body
 
+/-! ## By-reference bodies: raw pointers with provenance, and the views built from them
+
+`split` on `&GenericArray` / `&mut GenericArray` returns two references made from one raw pointer.  A raw pointer is
+an element offset from the array's address together with the element range it may be used for (the extent of the
+reference it was derived from) and whether it may be written through; a reference built from it must lie inside that
+range (and be writable only if the pointer is), and the mutable references a function returns must not overlap any
+other returned reference.  This is the part of the aliasing rules that does not depend on the order of later accesses. -/
+
+structure RawPtr where
+  off : Nat
+  lo : Nat
+  hi : Nat
+  wr : Bool
+deriving Repr, DecidableEq
+
+structure View where
+  off : Nat
+  len : Nat
+  wr : Bool
+deriving Repr, DecidableEq
+
+inductive VStmt where
+  /-- `let p = self.as_ptr();` (`wr = false`) / `self.as_mut_ptr()` (`wr = true`): the whole array -/
+  | ptrSelf (p : Nat) (wr : Bool)
+  /-- `let q = p.add(k);` -/
+  | ptrAdd (q p : Nat) (k : LX)
+  /-- `let v = &*(p.add(add) as *const [T; len]);` / `&mut *(… as *mut _)` -/
+  | viewAt (v p : Nat) (add len : LX) (wr : Bool)
+  /-- `let q = v.as_ptr();` / `v.as_mut_ptr()` of a view made earlier: the pointer is good for that view only -/
+  | ptrOfView (q v : Nat) (wr : Bool)
+  /-- the function's value: the tuple of these views -/
+  | retViews (vs : List Nat)
+  | opaque
+deriving Repr, DecidableEq
+
+structure VSt where
+  ptrs : List (Nat × RawPtr)
+  views : List (Nat × View)
+deriving Repr
+
+def lookupP (l : List (Nat × RawPtr)) (v : Nat) : Option RawPtr :=
+  match l with
+  | [] => none
+  | (w, x) :: t => if w = v then some x else lookupP t v
+def lookupV (l : List (Nat × View)) (v : Nat) : Option View :=
+  match l with
+  | [] => none
+  | (w, x) :: t => if w = v then some x else lookupV t v
+def lookupVs (l : List (Nat × View)) : List Nat → Option (List View)
+  | [] => some []
+  | v :: vs => do let x ← lookupV l v; let r ← lookupVs l vs; some (x :: r)
+
+def View.disjoint (a b : View) : Bool := decide (a.off + a.len ≤ b.off) || decide (b.off + b.len ≤ a.off) || a.len == 0 || b.len == 0
+
+/-- no mutable view overlaps another returned view -/
+def noAlias : List View → Bool
+  | [] => true
+  | v :: rest => rest.all (fun w => (!v.wr && !w.wr) || v.disjoint w) && noAlias rest
+
+/-- `recvMut`: the receiver is `&mut GenericArray` (only then `as_mut_ptr()` type-checks) -/
+def vstep (recvMut : Bool) (e : Env) (s : VSt) : VStmt → Option (Sum (List View) VSt)
+  | .ptrSelf p wr =>
+    if wr && !recvMut then none
+    else some (.inr { s with ptrs := (p, ⟨0, 0, e.n, wr⟩) :: s.ptrs })
+  | .ptrAdd q p k =>
+    match lookupP s.ptrs p, k.eval e with
+    | some r, some d => if r.off + d ≤ r.hi then some (.inr { s with ptrs := (q, { r with off := r.off + d }) :: s.ptrs }) else none
+    | _, _ => none
+  | .viewAt v p add len wr =>
+    match lookupP s.ptrs p, add.eval e, len.eval e with
+    | some r, some a, some l =>
+      if decide (r.lo ≤ r.off + a) && decide (r.off + a + l ≤ r.hi) && (!wr || r.wr) then
+        some (.inr { s with views := (v, ⟨r.off + a, l, wr⟩) :: s.views })
+      else none
+    | _, _, _ => none
+  | .ptrOfView q v wr =>
+    match lookupV s.views v with
+    | some w => if wr && !w.wr then none else some (.inr { s with ptrs := (q, ⟨w.off, w.off, w.off + w.len, wr⟩) :: s.ptrs })
+    | none => none
+  | .retViews vs =>
+    match lookupVs s.views vs with
+    | some r => if noAlias r then some (.inl r) else none
+    | none => none
+  | .opaque => none
+
+def vexec (recvMut : Bool) (e : Env) : VSt → List VStmt → Option (List View)
+  | _, [] => none
+  | s, st :: rest =>
+    match vstep recvMut e s st with
+    | some (.inl r) => some r
+    | some (.inr s') => vexec recvMut e s' rest
+    | none => none
+
+/-- `none` = the body is not a valid way of producing its views (undefined behaviour or not lowered) -/
+def runViews (recvMut : Bool) (body : List VStmt) (e : Env) : Option (List View) := vexec recvMut e ⟨[], []⟩ body
+
 end GA.MemBody
